@@ -407,7 +407,7 @@ def evidence_extra(cov: dict[str, Any]) -> dict[str, Any]:
 
 
 def run_shard(ctx: Any) -> None:
-    n = 5 if ctx.tier == "quick" else 300
+    n = 10 if ctx.tier == "quick" else 300
 
     @given(st.one_of(ingredients(), ingredients(), ingredients(), directed()))
     def test(ing: dict[str, Any]) -> None:
